@@ -400,7 +400,7 @@ class Scheduler(object):
         return multiprocessing.Process
 
 
-def run_parallel(ctx, tp, files, ns, nworkers, assignment, arrival, giveup=(), tree_offset=0):
+def run_parallel(ctx, tp, files, ns, nworkers, assignment, arrival, giveup=(), tree_offset=0, preserve_underscores=False):
     from dendropy.application import sumtrees
     sched = Scheduler(assignment, arrival, giveup)
     for name in ("TreeAnalysisWorker", "TreeProcessor", "multiprocessing"):
@@ -412,7 +412,10 @@ def run_parallel(ctx, tp, files, ns, nworkers, assignment, arrival, giveup=(), t
     sumtrees.TreeAnalysisWorker.terminate = lambda self: None
     try:
         tp.num_processes = nworkers
-        return tp.parallel_analyze_trees(tree_sources=files, schema="newick", taxon_namespace=ns, tree_offset=tree_offset)
+        # through the public dispatcher (analyze_trees chooses the parallel branch for num_processes > 1, the serial one
+        # otherwise - then the scheduler stays unused)
+        return tp.analyze_trees(tree_sources=files, schema="newick", taxon_namespace=ns, tree_offset=tree_offset,
+                                preserve_underscores=preserve_underscores)
     finally:
         sumtrees.multiprocessing, sumtrees.TreeAnalysisWorker.start, sumtrees.TreeAnalysisWorker.terminate = saved
 
@@ -435,7 +438,9 @@ def sched_cases(draw, max_files, max_workers_extra):
             "burnin": draw(st.sampled_from([0, 0, 1, 2])),
             # node-age summarisation on ultrametric samples, under a drawn ultrametricity tolerance; with a relaxed
             # tolerance one tip is off by a little less than it
-            "ages": ages, "prec": draw(st.sampled_from([1e-5, 1e-5, 0.01, 0.5])), "perturb": draw(st.booleans())}
+            "ages": ages, "prec": draw(st.sampled_from([1e-5, 1e-5, 0.01, 0.5])), "perturb": draw(st.booleans()),
+            # labels with underscores, read with preserve_underscores on or off (the option of both runs alike)
+            "underscore_labels": draw(st.booleans()), "pu": draw(st.booleans())}
 
 
 def check_schedule(ctx, case):
@@ -466,6 +471,9 @@ def check_schedule(ctx, case):
     cuts = [0] + list(case["cuts"]) + [len(rts)]
     groups = [list(range(cuts[i], cuts[i + 1])) for i in range(len(cuts) - 1)]
     W = case["W"]
+    us, pu = bool(case.get("underscore_labels")), bool(case.get("pu"))
+    if us:
+        ctx.cls("B:underscore_labels:preserve_underscores=%r" % pu)
     tmp = tempfile.mkdtemp(prefix="c06_")
     try:
         files = []
@@ -473,9 +481,12 @@ def check_schedule(ctx, case):
             p = os.path.join(tmp, "f%d.nwk" % g)
             with open(p, "w") as f:
                 for i in idxs:
-                    f.write(newick_of(rts[i], flag) + "\n")
+                    line = newick_of(rts[i], flag)
+                    if us:
+                        line = line.replace("T", "T_")
+                    f.write(line + "\n")
             files.append(p)
-        labels = ["T%d" % i for i in range(sample["n"])]
+        labels = [("T_%d" if (us and pu) else ("T %d" if us else "T%d")) % i for i in range(sample["n"])]
         mk = lambda: sumtrees.TreeProcessor(is_source_trees_rooted=is_src_rooted, ignore_edge_lengths=False, ignore_node_ages=not ages,
                                             use_tree_weights=True, ultrametricity_precision=prec, taxon_label_age_map=None,
                                             num_processes=1, log_frequency=0, messenger=None, debug_mode=True)
@@ -487,12 +498,12 @@ def check_schedule(ctx, case):
             kept = list(range(len(rts)))
         if burnin:
             ctx.cls("B:burnin=%d" % burnin)
-        R = mk().serial_analyze_trees(tree_sources=files, schema="newick", taxon_namespace=ns1, tree_offset=burnin)
+        R = mk().serial_analyze_trees(tree_sources=files, schema="newick", taxon_namespace=ns1, tree_offset=burnin, preserve_underscores=pu)
         ns2 = dendropy.TaxonNamespace(labels)
         tag = lambda: "burnin=%d " % burnin + "mode=%s tokens_rooted=%r files=%r workers=%d assignment=%r arrival=%r early_empty_poll=%r trees=%s" % (
             mode, token_rooted, groups, W, case["assignment"], case["arrival"], case.get("giveup", []), [rt.canon() for rt in rts])
         try:
-            M = run_parallel(ctx, mk(), files, ns2, W, case["assignment"], case["arrival"], case.get("giveup", ()), tree_offset=burnin)
+            M = run_parallel(ctx, mk(), files, ns2, W, case["assignment"], case["arrival"], case.get("giveup", ()), tree_offset=burnin, preserve_underscores=pu)
         except runner.HarnessError:
             raise
         except Exception as e:
@@ -502,7 +513,10 @@ def check_schedule(ctx, case):
                 raise runner.KnownSkip()
             raise
         eff_rooted = bool(is_src_rooted) if is_src_rooted is not None else bool(flag)
-        compare_arrays(ctx, M, R, len(kept), tag, [key_of(rts[i], eff_rooted) for i in kept], eff_rooted)
+        relabel = (lambda x: x.replace("T", "T_" if pu else "T ")) if us else (lambda x: x)
+        compare_arrays(ctx, M, R, len(kept), tag, [relabel(key_of(rts[i], eff_rooted)) for i in kept], eff_rooted)
+        ctx.check(sorted(t.label for t in ns2) == sorted(labels), "namespace_labels_as_declared", "C06.schedule_labels",
+                  lambda: "labels %r; %s" % (sorted(t.label for t in ns2), tag()))
     finally:
         shutil.rmtree(tmp, ignore_errors=True)
     busy = set(case["assignment"])
